@@ -7,47 +7,74 @@ from gen import search as G
 
 ID = "C01"
 LEVEL = "proof"
-LEAN_IMPORTS = ["WM.Props.C01", "WM.Props.C01Cursor"]
-THEOREMS = ["WM.C01.matcher_den", "WM.C01.segments", "WM.C01.paths_agree", "WM.C01.cursor_den",
-            "WM.C01.cursor_answers"]
+LEAN_IMPORTS = ["WM.Props.C01", "WM.Props.C01Cursor", "WM.Props.C01Numeric"]
+THEOREMS = ["WM.C01.matcher_den", "WM.C01.segments", "WM.C01.paths_agree", "WM.C01.docs_overrides",
+            "WM.C01.cursor_den", "WM.C01.cursor_answers", "WM.C01.numeric_range_compiled"]
 _LIST = ("list level: about WM.Compile.compile, the posting list a per-segment matcher tree enumerates, not about "
          "the cursors of whoosh/matching (synchronised advance, skip_to, the AndNot/Inverse leaks are invisible "
-         "to it); the Lean bridge to the matcher family's cursor model is cursor_den, for term/null leaves and the "
-         "boolean constructors only - multi-term expansion (array union), Phrase (spans) and Every are tied to "
-         "the real matchers only by stepping them in every run. ")
+         "to it); the Lean bridge to the matcher family's cursor model is cursor_den (term/null/Every leaves, "
+         "multi-term expansions, boolean constructors, union trees and the scored array union); Phrase (spans), "
+         "numeric ranges and the unscored array union are tied to the real matchers only by stepping them in "
+         "every run. ")
 _POS = ("Hypotheses PosQ (every boost > 0) and PosLeaf (leaf scores of occurring terms > 0) narrow 'for all query "
         "trees incl. boosts': with a zero or negative boost the array union (membership = accumulated score > 0) "
         "drops satisfying documents - Lean counterexample in WM/Props/C01.lean, observable finding "
         "ArrayUnionMatcher:document-with-non-positive-accumulated-score-is-dropped (C09, ReverseWeighting). ")
 PARTIAL = {
-    "WM.C01.matcher_den": _LIST + _POS + "NumericRange/DateRange, Every(None) and the outer complement of Not are "
-                          "the specification verbatim in the model (value level), so the theorem says nothing "
-                          "about them beyond the combination with the other nodes.",
+    "WM.C01.matcher_den": _LIST + _POS + "NumericRange/DateRange (but see numeric_range_compiled), Every(None) and "
+                          "the outer complement of Not are the specification verbatim in the model (value level), "
+                          "so the theorem says nothing about them beyond the combination with the other nodes.",
+    "WM.C01.numeric_range_compiled": _LIST + "integer NUMERIC fields (1..32 bytes, any signedness and shift step) "
+                                     "with bounds in the field's domain and constantscore=True; float fields "
+                                     "(C13.range_query_float*), DATETIME (a 64-bit integer field after "
+                                     "datetime_to_long) and Decimal scaling are not restated here; hypothesis "
+                                     "IntFieldDoc: the document's terms of the field are the tier terms C13's "
+                                     "indexTermsList gives for its values (the harness takes the terms from the real "
+                                     "field's index(), and runs the cursor model on the query the real "
+                                     "_compile_query returns: stats cursor:numeric-range-compiled).",
     "WM.C01.segments": _LIST + _POS,
     "WM.C01.paths_agree": _LIST + _POS + "'access path' here = search context (needs_current x scored) x tree shape "
                           "oracle, plus the specification-side fact that ranking permutes the answer; limit=k "
-                          "(C05/C14), sortedby, filter/mask and the Query.docs overrides (Require.docs -> And, "
-                          "AndMaybe.docs -> a) are not parameters of the theorem: they are compared on the real "
-                          "code only (nine paths per query in every run).",
-    "WM.C01.cursor_den": "TreeOnly fragment: term and null leaves, And/Or/DisjunctionMax through the binary tree "
-                         "(not the array union, i.e. the contexts/sizes where whoosh builds a union tree), Not, "
-                         "AndNot, AndMaybe, Require, boosts, ConstantScoreQuery; the cursor constructors are the "
-                         "matcher family's model (C11 proves them faithful cursors), that Query.matcher builds "
-                         "this tree is checked by stepping real matchers.",
+                          "(C09.search_limit composes C05's TopCollector model with the compiled lists), the "
+                          "Query.docs overrides (docs_overrides); sortedby and filter/mask (C14) are not parameters "
+                          "of a theorem here: they are compared on the real code (nine paths per query in every run).",
+    "WM.C01.docs_overrides": _LIST + _POS + "the run is segment by segment; Query.docs on a multi-segment searcher "
+                             "runs one matcher over the MultiReader (MultiMatcher, C11's multi node; FuzzyTerm there "
+                             "expands through MultiReader.terms_within - recorded finding); compared on the real "
+                             "code by the path q.docs.",
+    "WM.C01.cursor_den": "fragment CursorOK: term, null and Every leaves; Prefix/Wildcard/TermRange/FuzzyTerm/Regex "
+                         "as expansions against the segment lexicon (0/1/many terms, constantscore through "
+                         "ConstantScoreWrapperMatcher resp. the all_ids() pre-read); And/Or/DisjunctionMax through the "
+                         "binary tree; Or / multi-term through the *scored* ArrayUnionMatcher when its sub-matchers are "
+                         "plain term matchers (boost 1, what a multi-term query expands to) with positive leaf scores "
+                         "and the boost is positive; Not, AndNot, AndMaybe, Require, boosts, ConstantScoreQuery. "
+                         "Outside: Phrase (span matchers have no node in the matcher family's tree), NumericRange/"
+                         "DateRange (tier terms are C13's), the unscored array union (scored=False: >= 3 clauses in a "
+                         "boolean / weighting=None context without needs_current on <= 5000 documents) and an array "
+                         "union over sub-matchers of different classes - the driver answers `notimpl` there and the "
+                         "run counts them (stats cursor:notimpl:*). The pre-read of a constant-score query uses the "
+                         "base all_ids() generator (C11.all_ids shows the overrides agree with it). The cursor "
+                         "constructors are the matcher family's model (C11 proves them faithful cursors); that "
+                         "Query.matcher builds this tree is checked in every run by stepping model tree and real "
+                         "matcher with one generated program of next/skip_to/replace calls (stream cursor:*).",
     "WM.C01.cursor_answers": "cursor_den's fragment and matcher_den's hypotheses (PosQ, PosLeaf, ValidOracle)",
 }
 RULE = ("random schema (TEXT with positions/chars, KEYWORD, ID, NUMERIC 8..64 bit, DATETIME, BOOLEAN), corpus over "
         "an ASCII + non-ASCII vocabulary, history (1-5 commits, deletes, merges, W3Codec(blocklimit 1-4 or default)) "
         "and query trees (depth <= 5, all public node types; AndNot/AndMaybe/Require with sparse required sides "
-        "nested under And/Or) per sub-seed; two 2300-document single-segment corpora per run cross the array "
-        "union's 2048-document part boundary; a case = (index, query, access path) or (segment, query, context) "
+        "nested under And/Or) per sub-seed; in 30% of the cases field t is phrase-focused: a 2-4 word vocabulary, "
+        "documents that are random sequences over it or a planted phrase whose non-last words are doubled / followed "
+        "by fillers, phrases of 3-5 words with slop 1-5 (bare and as clauses of compounds); two 2300-document single-segment corpora per run cross the array "
+        "union's 2048-document part boundary (with Or of >= 3 sparse plain terms, bare and under And/AndNot/Require/"
+        "AndMaybe, stepped with skip_to() calls that end in, at the end of and beyond a part); a case = (index, query, access path) or (segment, query, context) "
         "for the matcher stepping; non-trivial = the expected answer is neither empty nor all live documents, or a "
         "compound tree runs over >= 2 segments; distinct = distinct (corpus seed, query, path)")
 ASSUMPTIONS = [
     "theorems are about the list-level model WM.Compile.compile (what a matcher tree enumerates); for term/null "
-    "leaves and the boolean constructors cursor_den proves that the cursor tree of the matcher family's model "
-    "(C11) denotes exactly that list; for the remaining node types (multi-term, phrase, array union) the tie to "
-    "whoosh/matching is the stepping of the real matcher of every segment in every run",
+    "/Every leaves, multi-term expansions, the boolean constructors and the scored array union cursor_den proves that "
+    "the cursor tree of the matcher family's model (C11) denotes exactly that list; for the remaining node types "
+    "(phrase, numeric ranges, unscored array union) the tie to whoosh/matching is the stepping of the real matcher "
+    "of every segment in every run",
     "positive boosts and leaf scores (hypotheses PosQ, PosLeaf; evaluated by the driver on every generated case, "
     "see stats hyp:*); zero/negative boosts are outside the theorems",
     "the empty term is an ordinary term in the model: this mirrors the repair of MultiTerm.matcher proposed on "
@@ -67,12 +94,18 @@ MANIFEST = {
     "level_text": "Lean theorems over the list-level denotational model of Query.matcher(): for every query tree, "
                   "every binary tree shape over the clauses, each Or strategy and every search context the compiled "
                   "per-segment list has exactly the live satisfying documents (matcher_den), segments concatenate "
-                  "with offsets to the specified answer (segments), all access paths agree (paths_agree); the model "
-                  "is tied to whoosh on every run by stepping real matchers per segment and by running the public "
+                  "with offsets to the specified answer (segments), all access paths agree (paths_agree), the Query.docs "
+                  "overrides evaluate a query with the same answer (docs_overrides), the query NumericRange compiles "
+                  "to on an integer field answers exactly the documents with a value in the interval "
+                  "(numeric_range_compiled, with C13), and the cursor tree Query.matcher builds denotes the compiled "
+                  "list (cursor_den, with C11); the model "
+                  "is tied to whoosh on every run by stepping real matchers per segment (next only against the list model; "
+                  "a generated next/skip_to/replace program against the cursor model) and by running the public "
                   "API (9 access paths) against the Lean specification.",
     "level_note": "Hypotheses: positive boosts/leaf scores, valid tree shapes (see PARTIAL). List level; the Lean "
-                  "bridge to the cursor model of C11 (cursor_den, cursor_answers) covers leaves and boolean "
-                  "constructors. The numeric tier decomposition is C13's property.",
+                  "bridge to the cursor model of C11 (cursor_den, cursor_answers) covers term/Every leaves, multi-term "
+                  "expansions, boolean constructors and the scored array union. The numeric tier decomposition is "
+                  "C13's property.",
     "technique": "machine-checked proof in Lean 4 over an executable model + differential correspondence check "
                  "against the implementation + end-to-end run of the public API against the Lean specification",
 }
@@ -152,16 +185,16 @@ def run(ctx):
     n = ctx.budget(520, 4200)
     seeds = ["%s:%d:%d" % (ctx.pid, ctx.seed, i) for i in range(n)]
     with ctx.scratch() as scratch:
-        opts = {"nq": 8, "scratch": scratch, "scores": False, "corr": True, "hyp": True}
+        opts = {"nq": 8, "scratch": scratch, "scores": False, "corr": True, "hyp": True, "plant": 0.3}
         main = [(sd, opts) for sd in seeds]
         # larger corpora: more blocks per posting list, long histories; and single segments beyond
         # 2048 documents, where ArrayUnionMatcher works in several parts
         big = dict(opts, ndocs=300, nq=6, max_shrinks=3)
-        huge = dict(opts, ndocs=2300, nseg=1, nq=4, max_shrinks=2, maxdepth=3, vocab_n=40, sparse_or=3)
+        huge = dict(opts, ndocs=2300, nseg=1, nq=3, max_shrinks=2, maxdepth=3, vocab_n=40, sparse_or=2, plant=0.0)
         bigs = [("%s:%d:big%d" % (ctx.pid, ctx.seed, i), big) for i in range(ctx.budget(6, 60))]
         huges = [("%s:%d:huge%d" % (ctx.pid, ctx.seed, i), huge) for i in range(ctx.budget(2, 10))]
         jobs = corpus_jobs(ID, scratch) + huges + interleave(main, bigs)
-        done, results = run_jobs(ctx, jobs, 45 if ctx.tier == "quick" else 480)
+        done, results = run_jobs(ctx, jobs, 40 if ctx.tier == "quick" else 480, batch=16 if ctx.tier == "quick" else 32)
     absorb(ctx, results, "Compile.compile")
     floor_check(ctx)
     ctx.sample({"seed": results[-1]["seed"], "stats": results[-1]["stats"]})
